@@ -391,6 +391,10 @@ func oracleFor(op *Sexp, res string) []string {
 		if res != want {
 			bad("target after Unmarshal breaks the merge rules: got %s want %s", res, want)
 		}
+	case "latereg":
+		if res != "ok same" {
+			bad("registering a codec after a failed first use: %s", res)
+		}
 	case "ptrkeys":
 		if res != "ok" {
 			bad("maps with pointer keys decoded on one instance: %s", res)
